@@ -6,7 +6,7 @@ import C15, C16, C13, C10, C12, C05, C07, C20, C18
 
 def jobs(tier):
     J = []
-    for sc in range(1, 19):
+    for sc in range(1, 22):
         J.append(V.Job("add_scenario.%02d" % sc, "vnacal/c03_add.c", "h_add_scenario", C20.BASE,
                        defines=C20.CUT + ["-DSCENARIO=%d" % sc], unwind=14, union_struct=True, kind="bounded",
                        canary=(sc in (1, 3)),
@@ -52,7 +52,7 @@ def jobs(tier):
     take(C20, [r"add_counts\.(T8|U8|UE14|E12)_2x2_bad", r"solve_too_few\.(T8|UE14|U8)_2x2"], "vnacal_new")
     take(C18, [r"weights\.UE14$", r"m_error_reset\.UE14$"], "vnacal_new")
     import C11
-    take(C11, [r"refused\.make_correlated\.case[0126]$"], "vnacal")   # refusal paths free their private copies
+    take(C11, [r"refused\.make_correlated\.case[0126]$", r"solve_frame\..*resolved"], "vnacal")   # refusal paths free their private copies
     import C01
     take(C01, [r"apply_frame\.(T8|UE14)_f[02]$"], "vnacal")      # apply: no read outside the caller's vectors, also for an empty request
     take(C12, [r"vnacal_corr\.k00$"], "vnacal")       # parameter chains incl. a borrowed sigma frequency vector: freed exactly once
